@@ -6,6 +6,7 @@ import (
 	"fmt"
 	"go/token"
 	"go/types"
+	"sort"
 	"strconv"
 	"strings"
 
@@ -92,8 +93,7 @@ func (v *FnVC) callCommon(c *ssa.CallCommon, val ssa.Value, pos token.Pos, how s
 			pnames = append(pnames, n)
 		}
 	}
-	v.callCnt[short]++
-	ord := v.callCnt[short]
+	ord := v.callOrdinal(c, short)
 	site := fmt.Sprintf("%s#%d", short, ord)
 	v.ghostAtCall(site, "before", pnames, args)
 
@@ -255,6 +255,80 @@ func paramSource(x ssa.Value) string {
 	return ""
 }
 
+// callOrdinal numbers the call sites of one callee in source order (stable under CFG reordering).
+func (v *FnVC) callOrdinal(c *ssa.CallCommon, short string) int {
+	if v.callOrd == nil {
+		v.callOrd = map[*ssa.CallCommon]int{}
+		type site struct {
+			c   *ssa.CallCommon
+			pos token.Pos
+			idx int
+		}
+		by := map[string][]site{}
+		n := 0
+		for _, b := range v.fn.Blocks {
+			for _, ins := range b.Instrs {
+				var cc *ssa.CallCommon
+				switch x := ins.(type) {
+				case *ssa.Call:
+					cc = &x.Call
+				case *ssa.Defer:
+					cc = &x.Call
+				case *ssa.Go:
+					cc = &x.Call
+				}
+				if cc == nil {
+					continue
+				}
+				n++
+				name := v.shortName(cc)
+				by[name] = append(by[name], site{cc, ins.Pos(), n})
+			}
+		}
+		for _, ss := range by {
+			sort.Slice(ss, func(i, j int) bool {
+				if ss[i].pos != ss[j].pos {
+					return ss[i].pos < ss[j].pos
+				}
+				return ss[i].idx < ss[j].idx
+			})
+			for i, s := range ss {
+				v.callOrd[s.c] = i + 1
+			}
+		}
+	}
+	if o, ok := v.callOrd[c]; ok {
+		return o
+	}
+	v.callCnt[short]++
+	return 1000 + v.callCnt[short]
+}
+
+// shortName: the callee name used in call-site anchors (must agree with callCommon).
+func (v *FnVC) shortName(c *ssa.CallCommon) string {
+	if b, ok := c.Value.(*ssa.Builtin); ok {
+		return "builtin." + b.Name()
+	}
+	if c.IsInvoke() {
+		_, short := ifaceMethodKey(c.Value.Type(), c.Method.Name())
+		return short
+	}
+	if fn := c.StaticCallee(); fn != nil {
+		_, short := funcKey(fn)
+		return short
+	}
+	if ct := v.w.funcValueContract(c.Value.Type()); ct != "" {
+		return ct[strings.LastIndex(ct, ".")+1:]
+	}
+	if pn := paramSource(c.Value); pn != "" {
+		ek, es := funcKey(v.fn)
+		if _, ok := v.w.cs.Funcs[ek+"#"+pn]; ok {
+			return es + "#" + pn
+		}
+	}
+	return "funcvalue"
+}
+
 func recvName(fn *ssa.Function) string {
 	if len(fn.Params) > 0 {
 		return fn.Params[0].Name()
@@ -372,6 +446,11 @@ func (v *FnVC) havocItem(m string, cenv *Env, pre State, oldNext string) {
 	if strings.HasPrefix(m, "E[") && strings.HasSuffix(m, "]") {
 		t := v.w.parseType(m[2:len(m)-1], v.fn.Pkg)
 		v.havoc(v.elemKey(t))
+		return
+	}
+	if strings.HasPrefix(m, "C[") && strings.HasSuffix(m, "]") {
+		t := v.w.parseType(m[2:len(m)-1], v.fn.Pkg)
+		v.havoc(v.cellKey(t))
 		return
 	}
 	e, err := ParseExpr(m)
